@@ -1025,9 +1025,7 @@ func (v *Verifier) strToBytes(s *State, str *Term) *Term {
 	s.assume(Le(IntLit(0), n))
 	s.assume(Le(n, IntLitB(maxLen)))
 	base := v.allocRef(s)
-	es := v.byteSort()
-	name := v.sliceHeapName(es)
-	h := v.getHeap(s, name, v.sliceHeapSort(es))
+	name, h, es := v.sliceHeap(s, types.Typ[types.Byte])
 	v.d.declareFun("str.bytes", []string{SStr}, SArr(SInt, es))
 	s.heaps[name] = Store(h, base, mk("str.bytes", SArr(SInt, es), str))
 	return MkSlice(base, IntLit(0), n, n)
@@ -1035,9 +1033,7 @@ func (v *Verifier) strToBytes(s *State, str *Term) *Term {
 
 // bytesToStr: string(b): an abstract string determined by the byte window.
 func (v *Verifier) bytesToStr(s *State, sl *Term) *Term {
-	es := v.byteSort()
-	name := v.sliceHeapName(es)
-	h := v.getHeap(s, name, v.sliceHeapSort(es))
+	_, h, es := v.sliceHeap(s, types.Typ[types.Byte])
 	w := v.window(s, v.hsel(s, h, SBase(sl)), SOff(sl), SLen(sl))
 	v.d.declareFun("str.of", []string{SArr(SInt, es), SInt}, SStr)
 	r := mk("str.of", SStr, w, SLen(sl))
@@ -1234,7 +1230,7 @@ func (v *Verifier) evalCompositeLit(s *State, x *ast.CompositeLit) *Term {
 			}
 		}
 		base := v.allocRef(s)
-		name := v.sliceHeapName(es)
+		name := v.sliceHeapNameT(u.Elem())
 		h := v.getHeap(s, name, v.sliceHeapSort(es))
 		s.heaps[name] = Store(h, base, arr)
 		return MkSlice(base, IntLit(0), IntLit(n), IntLit(n))
